@@ -18,7 +18,7 @@ import (
 )
 
 func TestMain(m *testing.M) {
-	ev.Note("rule", "C14: rapid-generated scope trees (depth<=3) whose object IDs are drawn from a 4-letter pool so that the same ID is defined in several scopes with different shapes (every object carries a uniquely named required marker property), with references under properties, lists, map values, one-of members and nested scopes, 0-2 external namespaces with their own object tables, self- and mutually recursive objects; the namespaces are applied in a generated order. Oracles: (1) link state: after each ApplyNamespace exactly the references of that namespace (and the already applied ones) report ObjectReady, and ValidateReferences()==nil exactly when every reference is linked; (2) behaviour equals the reference interpreter's lexical resolution (nearest enclosing scope for the self namespace, the external table for a named one) on valid inputs (recursion depth up to 200) and mutations of them; (3) metamorphic: the schema in which every reference is replaced by the object the lexical resolver selects (recursion unrolled 3 levels) accepts/rejects and unserializes/serializes every input identically. Non-trivial: an ID is defined in >= 2 scopes with a reference to it below the inner one, or >= 2 namespaces are applied; distinct by (world, application order, input).")
+	ev.Note("rule", "C14: rapid-generated scope trees (depth<=3) whose object IDs are drawn from a 4-letter pool so that the same ID is defined in several scopes with different shapes (every object carries a uniquely named required marker property), with references under properties, lists, map values, one-of members and nested scopes, 0-2 external namespaces with their own object tables, self- and mutually recursive objects; the namespaces are applied in a generated order; plus struct worlds (scopes of struct-mapped objects from the general generator, half of the flat ones with one reference-free hoisted object moved into an external namespace). Oracles: (1) link state: after each ApplyNamespace exactly the references of that namespace (and the already applied ones) report ObjectReady, and ValidateReferences()==nil exactly when every reference is linked; (2) behaviour equals the reference interpreter's lexical resolution (nearest enclosing scope for the self namespace, the external table for a named one) on valid inputs (recursion depth up to 200) and mutations of them; (3) metamorphic: the schema in which every reference is replaced by the object the lexical resolver selects (recursion unrolled 3 levels) accepts/rejects and unserializes/serializes every input identically. Non-trivial: an ID is defined in >= 2 scopes with a reference to it below the inner one, or >= 2 namespaces are applied; distinct by (world, application order, input).")
 	ev.RegisterReplay("world", func(t *testing.T, raw json.RawMessage) {
 		var c Case
 		if err := json.Unmarshal(raw, &c); err != nil {
@@ -397,6 +397,9 @@ func inline(s *spec.Spec, env *model.Env, depth int) *spec.Spec {
 	case spec.KRef:
 		if depth <= 0 {
 			if s.Namespace != "" {
+				if o := refFreeObject(env.Ext[s.Namespace], s.RefID); o != nil {
+					return clone(o)
+				}
 				// beyond the unrolling depth a named reference is kept as a nested scope copy of the external scope
 				sc := clone(env.Ext[s.Namespace])
 				sc.Root = s.RefID
@@ -405,6 +408,10 @@ func inline(s *spec.Spec, env *model.Env, depth int) *spec.Spec {
 			return clone(s)
 		}
 		if s.Namespace != "" {
+			if o := refFreeObject(env.Ext[s.Namespace], s.RefID); o != nil {
+				// the denoted object has no references of its own: it is written in place as it is
+				return clone(o)
+			}
 			sc := clone(env.Ext[s.Namespace])
 			sc.Root = s.RefID
 			return sc
@@ -433,6 +440,28 @@ func inline(s *spec.Spec, env *model.Env, depth int) *spec.Spec {
 		}
 	}
 	return &c
+}
+
+// refFreeObject returns the object with that ID of the scope if nothing inside it is a reference or a scope.
+func refFreeObject(sc *spec.Spec, id string) *spec.Spec {
+	if sc == nil {
+		return nil
+	}
+	for _, o := range sc.Objects {
+		if o.ID != id {
+			continue
+		}
+		free := true
+		spec.Walk(o, func(n *spec.Spec) {
+			if n.Kind == spec.KRef || n.Kind == spec.KScope {
+				free = false
+			}
+		})
+		if free {
+			return o
+		}
+	}
+	return nil
 }
 
 func inlineObject(o *spec.Spec, env *model.Env, depth int) *spec.Spec {
@@ -701,6 +730,87 @@ func mutateKeys(t *rapid.T, v val.V) val.V {
 // TestStructWorlds: the same metamorphic check on scopes of struct-mapped objects from the general schema generator
 // (references to hoisted objects, recursive and mutually recursive structs held by pointer or by value, defaults,
 // one-of members): reference form and inlined form must accept the same inputs and give equal values.
+// externalise moves one hoisted object of a flat struct world into an external namespace: the objects reachable from
+// it through self-namespace references form the external scope (they also stay in the root table, where the
+// remaining self-namespace references keep denoting them), and every reference to it from outside that set is
+// rewritten to the namespace. Lexical resolution then gives the same object either way, so the reference form must
+// still agree with the inlined form. Worlds with nested scopes, and objects from which the root is reachable, are left.
+func externalise(rt *rapid.T, w *World) bool {
+	s := w.Root
+	if s.Kind != spec.KScope || !rapid.Bool().Draw(rt, "externalise") {
+		return false
+	}
+	nested := 0
+	spec.Walk(s, func(n *spec.Spec) {
+		if n.Kind == spec.KScope {
+			nested++
+		}
+	})
+	if nested != 1 {
+		return false
+	}
+	byID := map[string]*spec.Spec{}
+	for _, o := range s.Objects {
+		byID[o.ID] = o
+	}
+	closure := func(id string) map[string]bool {
+		seen := map[string]bool{}
+		var visit func(id string)
+		visit = func(id string) {
+			if seen[id] || byID[id] == nil {
+				return
+			}
+			seen[id] = true
+			spec.Walk(byID[id], func(n *spec.Spec) {
+				if n.Kind == spec.KRef && n.Namespace == "" {
+					visit(n.RefID)
+				}
+			})
+		}
+		visit(id)
+		return seen
+	}
+	var cands []string
+	for _, o := range s.Objects {
+		// only objects without references of their own: the inlined form then holds the bare object, which is what the
+		// statement speaks of (a moved object with references would be inlined as a scope written in place; how the
+		// SDK completes by-value members typed by a scope is not classified yet, notes/c14-externalise)
+		if o.ID != s.Root && len(closure(o.ID)) == 1 && refFreeObject(s, o.ID) != nil {
+			cands = append(cands, o.ID)
+		}
+	}
+	if len(cands) == 0 {
+		return false
+	}
+	sort.Strings(cands)
+	x := rapid.SampledFrom(cands).Draw(rt, "moved")
+	in := closure(x)
+	ext := &spec.Spec{Kind: spec.KScope, Root: x}
+	for _, o := range s.Objects {
+		if in[o.ID] {
+			ext.Objects = append(ext.Objects, clone(o))
+		}
+	}
+	moved := false
+	for _, o := range s.Objects {
+		if in[o.ID] {
+			continue
+		}
+		spec.Walk(o, func(n *spec.Spec) {
+			if n.Kind == spec.KRef && n.Namespace == "" && n.RefID == x {
+				n.Namespace = "ext"
+				moved = true
+			}
+		})
+	}
+	if !moved {
+		return false
+	}
+	w.Ext = map[string]*spec.Spec{"ext": ext}
+	w.Steps = []Apply{{NS: "ext"}}
+	return true
+}
+
 func TestStructWorlds(t *testing.T) {
 	ev.Check(t, "structworlds", 500, 10000, func(rt *rapid.T) {
 		o := gen.Full(2)
@@ -712,6 +822,7 @@ func TestStructWorlds(t *testing.T) {
 			rt.Skip("the constructors refuse the generated schema")
 		}
 		w := World{Root: s}
+		externalised := externalise(rt, &w)
 		c := Case{World: w}
 		for i := 0; i < ev.N(6, 12); i++ {
 			mv, ok := gen.ValueFor(rt, s, nil, 4)
@@ -728,7 +839,7 @@ func TestStructWorlds(t *testing.T) {
 				hasStruct = true
 			}
 		})
-		ev.Case(ev.FP("structworld", specJSON(w), fmt.Sprint(c.Inputs)), rec && hasStruct, fmt.Sprintf("struct_world_recursive=%v", rec), fmt.Sprintf("struct_world_has_struct=%v", hasStruct))
+		ev.Case(ev.FP("structworld", specJSON(w), fmt.Sprint(c.Inputs)), (rec || externalised) && hasStruct, fmt.Sprintf("struct_world_recursive=%v", rec), fmt.Sprintf("struct_world_has_struct=%v", hasStruct), fmt.Sprintf("struct_world_object_moved_to_namespace=%v", externalised))
 		msg := run(c)
 		if inlineUnbuildable > 0 {
 			ev.Class("inlined_form_refused_by_constructors", int64(inlineUnbuildable))
